@@ -154,6 +154,227 @@ def gen_lifecycle(ctx):
         yield embed(rng, case)
 
 
+# ------------------------------------------------------------------------------------------------
+# loop-control keys read from track files by the real reader (spellings, defaults of `parallel` elements)
+# ------------------------------------------------------------------------------------------------
+def _spelling(rng, kind, base):
+    """one way a track file can say something about a key: left out, null, an explicit zero (0 / 0.0), a value (int / float)"""
+    r = rng.random()
+    if r < 0.3:
+        return "absent"
+    if r < 0.36:
+        return None
+    if r < 0.62:
+        return {"int": 0} if rng.random() < 0.6 else {"float": "0/1"}
+    v = base if rng.random() < 0.6 else rng.choice([1, 2, 3, 4])
+    if kind == "time" and rng.random() < 0.25:
+        return {"float": ec.qs(Fraction(v) + Fraction(1, 2))}
+    return {"int": v} if rng.random() < 0.85 else {"float": ec.qs(Fraction(v))}
+
+
+def gen_track_spec(rng, n_tasks, force_parallel=None):
+    """loop-control keys at `parallel` level and at task level, every key in every spelling, mostly consistent combinations
+    (iteration-based or time-based), sometimes mixed (the reader must reject those)"""
+    parallel = (rng.random() < 0.75) if force_parallel is None else force_parallel
+    mode = rng.choice(["iter", "iter", "time", "time", "mixed"])
+    keys = {"iter": ["warmup-iterations", "iterations"], "time": ["warmup-time-period", "time-period"], "mixed": list(ec.LOOP_KEYS[:4])}[mode]
+    base = {"warmup-iterations": rng.choice([1, 2, 3, 5]), "iterations": rng.choice([1, 2, 4, 6]), "warmup-time-period": rng.choice([1, 2, 4]),
+            "time-period": rng.choice([1, 2, 3]), "ramp-up-time-period": rng.choice([1, 2])}
+    par = None
+    if parallel:
+        par = {}
+        for k in keys:
+            sp = _spelling(rng, "time" if "time" in k else "iter", base[k])
+            if sp != "absent" and (mode != "mixed" or rng.random() < 0.5):
+                par[k] = sp
+        if mode == "time" and rng.random() < 0.3:
+            par["ramp-up-time-period"] = {"int": base["ramp-up-time-period"]}
+            par.setdefault("warmup-time-period", {"int": base["warmup-time-period"] + 1})
+            if par["warmup-time-period"] is None or ec.num(par["warmup-time-period"]) < base["ramp-up-time-period"]:
+                par["warmup-time-period"] = {"int": base["warmup-time-period"] + 1}
+    tasks = []
+    for _ in range(n_tasks if parallel else 1):
+        d = {}
+        for k in keys:
+            sp = _spelling(rng, "time" if "time" in k else "iter", base[k])
+            if sp != "absent" and (mode != "mixed" or rng.random() < 0.4):
+                d[k] = sp
+        if rng.random() < 0.04:
+            d["ramp-up-time-period"] = {"int": base["ramp-up-time-period"]}
+        if par is None and mode == "time" and rng.random() < 0.2 and d.get("warmup-time-period") not in (None,) and "warmup-time-period" in d \
+                and ec.num(d["warmup-time-period"]) >= base["ramp-up-time-period"]:
+            d["ramp-up-time-period"] = {"int": base["ramp-up-time-period"]}
+        tasks.append(d)
+    return par, tasks
+
+
+def gen_track_cases(ctx):
+    """a task read from a generated track file by the real reader, its allocation from the real Allocator, then schedule_for and the
+    executor: request count, warm-up flags, stop time and progress against what the FILE says (explicit 0 / 0.0 / null / absent
+    at task level against values at parallel level and vice versa)"""
+    rng = ctx.rng
+    for _ in range(ctx.budget):
+        exact = rng.random() < 0.7
+        case = ec.gen_case(rng, exact, "loop")
+        n_tasks = rng.randrange(1, 4)
+        par, tasks = gen_track_spec(rng, n_tasks)
+        clients = [rng.choice([1, 1, 2, 3]) for _ in tasks]
+        focus = rng.randrange(0, len(tasks))
+        width = sum(clients)
+        pc = None if (par is None or rng.random() < 0.7) else width
+        case["track"] = {"parallel": par, "tasks": tasks, "clients": clients, "focus": focus, "parallel_clients": pc}
+        case["alloc"] = {"schedule": [{"leaf": par is None, "clients": pc, "tasks": [{"id": i, "clients": c, "cp": False, "acp": False} for i, c in enumerate(clients)]}],
+                         "focus": focus, "k": rng.randrange(0, clients[focus])}
+        case["task"]["clients"] = clients[focus]
+        case["task"]["completes_parent"] = case["task"]["any_completes_parent"] = False
+        # enough requests for whatever the file specifies, short ones
+        while len(case["reqs"]) < 24:
+            case["reqs"].append(dict(case["reqs"][0]) if case["reqs"] else {"gen": "0/1", "pre": "0/1", "service": "1/4", "post": "0/1", "draw": "1/8",
+                                "out": {"k": "tuple", "w": 1, "unit": "ops"}, "rc": None, "rp": None, "sp": None})
+        for q in case["reqs"]:
+            if Fraction(q["service"]) > 1:
+                q["service"] = "1/2"
+            if Fraction(q["service"]) == 0 and rng.random() < 0.7:
+                q["service"] = "1/4"
+        if rng.random() < 0.25:
+            case["task_ops"] = gen_task_ops(rng, case)
+        yield case
+
+
+def gen_reader(ctx):
+    rng = ctx.rng
+    for _ in range(ctx.budget):
+        par, tasks = gen_track_spec(rng, rng.randrange(1, 5))
+        yield {"parallel": par, "tasks": tasks, "clients": [1] * len(tasks), "focus": 0, "parallel_clients": None}
+
+
+def run_reader(ctx, case):
+    """every task of a generated schedule element through the real reader vs. the model vs. what the file says"""
+    import json
+
+    from esrally.track import loader
+
+    m = ctx.model("exec", "read_track", {"parallel": case["parallel"], "tasks": case["tasks"]})
+    fake = {"task": {"sched": None, "tput": None}, "track": case}
+    try:
+        trk = loader.TrackSpecificationReader()("c05-track", json.loads(ec.track_json(fake, "bulk")), "/tmp")
+        leaves = [lt for el in trk.challenges[0].schedule for lt in el]
+        impl = {"r": [[None if v is None else str(Fraction(v)) for v in (lt.warmup_iterations, lt.iterations, lt.warmup_time_period, lt.time_period, lt.ramp_up_time_period)]
+                      for lt in leaves]}
+    except loader.TrackSyntaxError:
+        impl = {"err": "TrackSyntaxError"}
+    mm = {"r": [[None if v is None else str(Fraction(v)) for v in row] for row in m["r"]]} if "r" in m else {"err": m["err"]}
+    if mm != impl:
+        ctx.diff("TrackSpecificationReader loop-control keys", mm, impl)
+    if "r" in impl:
+        par = case["parallel"] or {}
+        for i, spec in enumerate(case["tasks"]):
+            for j, k in enumerate(ec.LOOP_KEYS):
+                v = spec[k] if k in spec else par.get(k)
+                want = None if v is None else str(Fraction(v["int"]) if "int" in v else Fraction(v["float"]))
+                if impl["r"][i][j] != want:
+                    ctx.fail("track-file-key", f"task {i}: [{k}] is spelled {spec.get(k, 'absent')!r} (parallel element: {par.get(k, 'absent')!r}) but the task got another value",
+                             want, impl["r"][i][j])
+    zero_over_default = any(k in spec and spec[k] is not None and Fraction(spec[k].get("int", 0) if "int" in spec[k] else spec[k]["float"]) == 0
+                            and (case["parallel"] or {}).get(k) not in (None,) and k in (case["parallel"] or {}) for spec in case["tasks"] for k in ec.LOOP_KEYS)
+    if zero_over_default:
+        ctx.count("explicit-zero-over-parallel-default")
+    ctx.sig([m.get("tags"), case["parallel"] is None, zero_over_default], nontrivial="r" in impl)
+
+
+# ------------------------------------------------------------------------------------------------
+# iteration totals well beyond the usual handful: the schedule alone, through schedule_for
+# ------------------------------------------------------------------------------------------------
+def gen_totals(ctx):
+    import math
+
+    rng = ctx.rng
+    for _ in range(ctx.budget):
+        total = int(round(math.exp(rng.uniform(0, math.log(6000)))))
+        r = rng.random()
+        warm = 0 if r < 0.3 else (rng.randrange(0, total) if r < 0.9 else total - 1)
+        iters = max(1, total - warm)
+        yield {"warmup_it": rng.choice([None, 0]) if warm == 0 and rng.random() < 0.5 else warm, "iters": iters, "runner_completion": False, "src_infinite": True}
+
+
+def run_totals(ctx, case):
+    """requests handed out by the real ScheduleHandle (from schedule_for) for an inexhaustible parameter source: exact count,
+    warm-up flags, progress — for totals up to several thousand"""
+    import asyncio
+
+    from esrally import metrics, track
+    from esrally.driver import driver, runner
+
+    total = (case["warmup_it"] or 0) + case["iters"]
+    fuel = total + 3
+    m = ctx.model("exec", "loop_count", dict(case, mode="dbl", fuel=fuel))
+
+    class Src:
+        infinite = True
+
+        def partition(self, i, n):
+            return self
+
+        def params(self):
+            return {}
+
+    class R:
+        async def __call__(self, es, params):
+            return None
+
+    runner.register_runner(ec.OP_TYPE, R(), async_runner=True)
+    try:
+        task = track.Task("t", track.Operation("o", ec.OP_TYPE, params={}), warmup_iterations=case["warmup_it"], iterations=case["iters"])
+        handle = driver.schedule_for(driver.TaskAllocation(task, 0, 0, 1), Src())
+        handle.start()
+        got = []
+
+        async def consume():
+            async for tup in handle():
+                got.append((tup[1] == metrics.SampleType.Warmup, tup[2]))
+                if len(got) >= fuel:
+                    break
+
+        loop = asyncio.new_event_loop()
+        try:
+            loop.run_until_complete(consume())
+        finally:
+            loop.close()
+    finally:
+        runner.remove_runner(ec.OP_TYPE)
+    impl = {"count": len(got), "warmup": sum(1 for w, _ in got if w), "last": None if not got else str(Fraction(got[-1][1])),
+            "max": None if not got else str(max(Fraction(p) for _, p in got))}
+    mm = {"count": m["r"]["count"], "warmup": m["r"]["warmup"], "last": None if m["r"]["last"] is None else str(Fraction(m["r"]["last"])),
+          "max": None if m["r"]["max"] is None else str(Fraction(m["r"]["max"]))}
+    if mm != impl:
+        ctx.diff("schedule of an iteration-based task", mm, impl)
+    warm = case["warmup_it"] or 0
+    if impl["count"] != total:
+        ctx.fail("iteration-count", f"warmup-iterations={warm}, iterations={case['iters']}: the client is handed {impl['count']} requests", total, impl["count"])
+    if impl["warmup"] != warm or any(w != (i < warm) for i, (w, _) in enumerate(got)):
+        ctx.fail("warmup-flag", "not exactly the first warmup-iterations requests are flagged warm-up", warm, impl["warmup"])
+    if got and (Fraction(got[-1][1]) != 1 or any(Fraction(p) > 1 or Fraction(p) <= 0 for _, p in got)):
+        ctx.fail("progress", "progress leaves (0,1] or does not end at 1", "1", impl["last"] + " max " + impl["max"])
+    ctx.sig([total.bit_length(), warm == 0, warm == total - 1], nontrivial=total >= 49)
+    ctx.count("total>=49" if total >= 49 else "total<49")
+
+
+def gen_totals_executor(ctx):
+    """the same through the whole executor (every request a sample): totals up to a few hundred, instantaneous requests"""
+    import math
+
+    rng = ctx.rng
+    for _ in range(ctx.budget):
+        total = int(round(math.exp(rng.uniform(math.log(40), math.log(700)))))
+        warm = rng.choice([0, 0, rng.randrange(0, total)])
+        case = ec.gen_case(rng, True, "loop")
+        case["task"].update(warmup_it=warm if (warm or rng.random() < 0.5) else None, iters=total - warm, warmup_t=None, period=None, ramp_up=None, tput=None, sched=None)
+        q = {"gen": "0/1", "pre": "0/1", "service": "0/1", "post": "0/1", "draw": "0/1", "out": {"k": "tuple", "w": 1, "unit": "ops"}, "rc": None, "rp": None, "sp": None}
+        case["reqs"] = [dict(q, service=rng.choice(["0/1", "1/1024"])) for _ in range(total + 2)]
+        case.update(cancel_at=None, complete_at=None, runner_completion=False, src_infinite=True, src_progress=False, queue_cap=16384, on_error="continue")
+        yield case
+
+
 def run(ctx, case):
     ec.run_exec(ctx, case, [ec.oracle_c05])
 
@@ -518,6 +739,10 @@ STREAMS = [
     Stream("sched_float", gen_float, run, quick=5000, thorough=300000, shards=16),
     Stream("sched_boundary", gen_boundary, run, quick=2500, thorough=100000, shards=8),
     Stream("task_lifecycle_allocator", gen_lifecycle, run, quick=5000, thorough=200000, shards=16),
+    Stream("track_file_loop_control", gen_track_cases, run, quick=4000, thorough=150000, shards=16),
+    Stream("reader_inheritance", gen_reader, run_reader, quick=6000, thorough=200000, shards=8),
+    Stream("iteration_totals_schedule", gen_totals, run_totals, quick=1600, thorough=40000, shards=16),
+    Stream("iteration_totals_executor", gen_totals_executor, run, quick=160, thorough=4000, shards=16),
     Stream("allocator_ramp_up", gen_alloc_ramp, run_alloc_ramp, quick=4000, thorough=150000, shards=8),
     Stream("throughput_parse", gen_parse, run_parse, quick=12000, thorough=600000, shards=8),
     Stream("pacing_ieee", gen_pacing, run_pacing, quick=8000, thorough=400000, shards=8),
